@@ -47,6 +47,10 @@ type wcase struct {
 	// obiutils.CompressStream wrapper (compressed or not) put in front of the
 	// harness stream, as WriteFasta and WriteFastq do, instead of the bare stream.
 	Wfile bool `json:"wfile,omitempty"`
+	// gate (backlog_test.go; never serialised, rebuilt from the compact case):
+	// with several formatting workers, holds back the formatting of chosen
+	// batches until the returned iterator has delivered given others.
+	gate *gateCtl
 }
 
 var writers = []string{"fasta", "fastq", "json", "csv", "sequence", "chunk"}
@@ -191,6 +195,10 @@ func (c wcase) batch(b int) obiiter.BioSequenceBatch {
 			s = obiseq.NewBioSequence(recID(b, i), []byte(recSeq(b, i, c.seqLen(b, i))), "")
 		}
 		s.SetAttribute("batch", b)
+		if i == 0 && c.gate != nil && c.gate.gated(b) {
+			// same text on the output as the integer b, formatted when the gate opens
+			s.SetAttribute("batch", c.gate.value(b))
+		}
 		sl = append(sl, s)
 	}
 	return obiiter.MakeBioSequenceBatch("c04", b, sl)
@@ -288,6 +296,11 @@ func (o observation) describe() string {
 
 const waitLimit = 30 * time.Second
 
+// waitLimitOf: histories of thousands of batches get 2 ms more per batch.
+func (c wcase) waitLimitOf() time.Duration {
+	return waitLimit + time.Duration(c.n())*2*time.Millisecond
+}
+
 // poisoned is set when a run left a pipe registered for ever: the global pipe
 // counter of obiiter can then not signal completion to later runs of the same
 // process.
@@ -330,7 +343,7 @@ func runCase(c wcase) observation {
 	var obs observation
 	fatalsBefore := fatal.Count()
 	out := newSink()
-	deadline := time.After(waitLimit)
+	deadline := time.After(c.waitLimitOf())
 
 	if c.JitterMaxUs > 0 {
 		obiiter.VerifSetJitter(c.JitterSeed, c.JitterMaxUs)
@@ -414,6 +427,10 @@ func runCase(c wcase) observation {
 				orderMu.Lock()
 				order = append(order, b.Order())
 				orderMu.Unlock()
+				if c.gate != nil {
+					// delivered by the returned iterator = handed to the writer goroutine before
+					c.gate.saw(b.Order())
+				}
 			}
 		}()
 	}
@@ -608,7 +625,7 @@ func (c wcase) emptyTextExpected() bool {
 
 func judge(c wcase, obs observation) error {
 	if obs.Stuck != "" {
-		return fmt.Errorf("the run did not finish within %v: %s", waitLimit, obs.Stuck)
+		return fmt.Errorf("the run did not finish within %v: %s", c.waitLimitOf(), obs.Stuck)
 	}
 	if obs.Fatals > 0 {
 		return fmt.Errorf("the library reported %d fatal error(s): %s", obs.Fatals, obs.FatalMsg)
